@@ -728,7 +728,7 @@ func scanClasses(chs []change) (classes []string, what string) {
 		if area == "tmp" && k == "created" {
 			k = "left"
 		}
-		if area == "S" || area == "above" || area == "in" || area == "out" || area == "outer" || area == "out2" || area == "out-evil" || area == "out.bak" {
+		if area == "S" || area == "above" || area == "in" || area == "out" || area == "outer" || area == "out2" || area == "out-evil" || area == "out.bak" || area == "OUT" || area == "Out" {
 			area = "elsewhere"
 		}
 		set[area+"-"+k] = true
